@@ -82,6 +82,7 @@ type PipeSpec struct {
 	TimeoutMs   int      `json:"timeout_ms"`
 	Footprint   bool     `json:"footprint"`
 	HTTPTimeout int      `json:"http_timeout"` // --http-timeout in seconds (0 = none)
+	IncludeHost string   `json:"include_host"` // "A" / "B": --include-host = that origin host; seeds, assets and redirect targets elsewhere are out of scope
 	TempInJob   bool     `json:"temp_in_job"` // --warc-temp-dir = the job directory itself (legal, unusual): nothing of the job may be deleted at stop
 	SlowPoint   string   `json:"slow_point"`   // every event at this hook point takes SlowMs longer (a slow disk, a slow queue: any schedule is allowed)
 	SlowMs      int      `json:"slow_ms"`
@@ -235,6 +236,12 @@ func runPipeChild(specPath string) {
 	}
 	if sp.TempInJob {
 		c.WARCTempDir = filepath.Join("jobs", sp.Job)
+	}
+	switch sp.IncludeHost {
+	case "A":
+		c.IncludeHosts = []string{strings.Split(hostA, ":")[0]}
+	case "B":
+		c.IncludeHosts = []string{strings.Split(hostB, ":")[0]}
 	}
 	must(config.GenerateCrawlConfig())
 	must(os.MkdirAll(c.JobPath, 0o755))
@@ -442,6 +449,14 @@ loop:
 			}
 			if res.StopCalled || stopRequested || holdQuiescence.Load() {
 				continue
+			}
+			// a crawl in which nothing at all has happened for 45 s while seeds are still tracked will not end by itself
+			// (the longest legitimate silence is a 30 s rate-limiter penalty): do not sit out the whole budget
+			if silent := time.Since(time.Unix(0, lastEvent.Load())); silent > 45*time.Second && len(reactor.GetStateTable()) > 0 && time.Since(t0) > 50*time.Second {
+				res.TimedOut = true
+				res.IdleAtTimeout = silent.Milliseconds()
+				res.TableAtTimeout = len(reactor.GetStateTable())
+				break loop
 			}
 			quiet := time.Since(time.Unix(0, lastEvent.Load())) > idle && len(reactor.GetStateTable()) == 0 &&
 				(len(sp.LQRows) == 0 || runN > 1 || sawInsert.Load())
